@@ -116,7 +116,16 @@ def generate(rng, tier):
             r = rng.random()
             pad = [] if r < 0.8 else [0.0] * rng.randint(1, 3) if r < 0.95 else [1e-40] * rng.randint(1, 2)
             full = (cs + pad)[:8]
-            out.append((f"poly {len(full)} " + " ".join(fb(c) for c in full) + " " + " ".join(root_queries(cs)), True))
+            qs0 = root_queries(cs)
+            out.append((f"poly {len(full)} " + " ".join(fb(c) for c in full) + " " + " ".join(qs0), True))
+            # the same equation scaled by an exact power of two (coefficients and right-hand sides): root finding must not
+            # depend on the absolute size of the numbers
+            if rng.random() < 0.35:
+                # (2^-60 only for genuine cubics: below about 2^-55 the discriminant b^2-4ac of the quadratic formula is a denormal)
+                f = 2.0 ** -rng.choice([10, 24, 40, 60] if (deg == 3 and not pad) else [10, 24, 40])
+                def sc(q):
+                    return q if q == "X" else q[0] + fb(b2f(int(q[1:])) * f)
+                out.append((f"poly {len(full)} " + " ".join(fb(c * f) for c in full) + " " + " ".join(sc(q) for q in qs0), True))
     # integer polynomials with exactly representable (multiple) roots
     small = [-2.0, -1.0, -0.5, 0.0, 0.25, 0.5, 1.0, 2.0, 3.0]
     for _ in range(300 if thorough else 60):
